@@ -12,7 +12,8 @@ EXTENDS Integers, Sequences, FiniteSets, TLC, Json
 
 
 \* file names used by the driver carry their class in a fixed vocabulary
-TomlNames == {"a.toml", "b.toml", "c.toml", "UPPER.TOML", "zz_barrier1.toml", "zz_barrier2.toml", "with space.toml"}
+\* "any letter case" of the extension: the loader lower-cases names, so Mixed.Toml is a configuration file too
+TomlNames == {"a.toml", "b.toml", "c.toml", "UPPER.TOML", "zz_barrier1.toml", "zz_barrier2.toml", "with space.toml", "Mixed.Toml", "x.tOmL"}
 OtherNames == {"notes.txt", "a.toml.bak", "README", "atoml", "x.tom", "a.toml~", ".toml.swp"}
 Dirs == {"hidi-config/factory/gamepad/", "hidi-config/factory/keyboard/", "hidi-config/user/gamepad/", "hidi-config/user/keyboard/"}
 WatchedToml == {d \o n : d \in Dirs, n \in TomlNames}
